@@ -175,7 +175,18 @@ pub fn run_batch<S: Scenario>(sc: &S, cfg: &RunCfg) -> BatchStats {
                     }
                     let seed = run_seed(cfg.seed, i);
                     let case = sc.case(i, seed, cfg.tier);
-                    let out = sc.execute(&case);
+                    let out = match std::panic::catch_unwind(std::panic::AssertUnwindSafe(|| sc.execute(&case))) {
+                        Ok(o) => o,
+                        Err(_) => {
+                            let p = crate::simrt::take_panics();
+                            let mut o = Outcome::default();
+                            o.harness_error = Some(format!(
+                                "execute panicked: {}",
+                                p.last().map(|p| format!("{} at {}", p.message, p.location())).unwrap_or_default()
+                            ));
+                            o
+                        }
+                    };
                     local.evaluations += 1;
                     if i < n_enum {
                         local.enumerated += 1;
